@@ -90,12 +90,25 @@ pub struct StreamSpec {
     /// 0: one document per read; 1: several (k) documents per read; 2: a fraction (bytes) per read
     pub packet_kind: u8,
     pub packet_param: usize,
+    /// bytes of whitespace (blank lines, keep-alive padding) in front of the first
+    /// document; they belong to document 1 (JSON and YAML sources only)
+    pub lead: usize,
+}
+
+/// Whitespace in front of the first document: JSON's four whitespace bytes for a JSON
+/// stream, line breaks for a YAML stream; nothing for MessagePack.
+fn lead_bytes(a: Fmt, lead: usize) -> Vec<u8> {
+    match a {
+        Fmt::Json => (0..lead).map(|i| b"\n \n\t\r\n\n "[i % 8]).collect(),
+        Fmt::Yaml => vec![b'\n'; lead],
+        _ => vec![],
+    }
 }
 
 impl StreamSpec {
     fn to_json(&self) -> J {
         json!({"unit": "stream", "a": self.a.name(), "to": self.to.name(), "detect": self.detect, "n": self.n, "doc_size": self.doc_size,
-               "packet_kind": self.packet_kind, "packet_param": self.packet_param})
+               "packet_kind": self.packet_kind, "packet_param": self.packet_param, "lead": self.lead})
     }
     fn from_json(j: &J) -> Option<StreamSpec> {
         Some(StreamSpec {
@@ -106,6 +119,7 @@ impl StreamSpec {
             doc_size: j["doc_size"].as_u64()? as usize,
             packet_kind: j["packet_kind"].as_u64()? as u8,
             packet_param: j["packet_param"].as_u64()? as usize,
+            lead: j["lead"].as_u64().unwrap_or(0) as usize,
         })
     }
 }
@@ -183,7 +197,12 @@ impl LazyReader {
         if self.next_doc >= self.spec.n {
             return false;
         }
-        let b = doc_bytes(self.spec.a, self.next_doc, self.spec.doc_size, self.variant);
+        let mut b = doc_bytes(self.spec.a, self.next_doc, self.spec.doc_size, self.variant);
+        if self.next_doc == 0 && self.spec.lead > 0 && self.variant != 6 {
+            let mut l = lead_bytes(self.spec.a, self.spec.lead);
+            l.extend(b);
+            b = l;
+        }
         self.next_doc += 1;
         self.generated_end += b.len() as u64;
         self.ends.push_back(self.generated_end);
@@ -370,6 +389,9 @@ pub fn check_stream(spec: &StreamSpec, rec: &mut Recorder) -> Result<(), String>
     rec.count(if nontrivial { Some(hash_of(&spec.to_json().to_string())) } else { None });
     rec.class(&format!("pair:{}->{}", spec.a.name(), spec.to.name()));
     rec.class(if spec.detect { "detected" } else { "explicit" });
+    if spec.lead >= 1000 && variant != 6 && spec.a != Fmt::Msgpack {
+        rec.class(if spec.detect { "long_leading_whitespace:detected" } else { "long_leading_whitespace:explicit" });
+    }
     rec.class(["packet:one_document_per_read", "packet:several_documents_per_read", "packet:fraction_of_a_document"][spec.packet_kind.min(2) as usize]);
     rec.class(&format!("max_lag_docs:{}", r.log.max_lag_docs.min(3)));
     rec.class(if r.doc_len > 16384 { "doc:large" } else if docs_per_8k >= 2 { "doc:small" } else { "doc:medium" });
@@ -393,8 +415,9 @@ fn spec_strategy(tier: Tier) -> BoxedStrategy<StreamSpec> {
         0u8..3,
         any::<u16>(),
         any::<u16>(),
+        prop_oneof![3 => Just(0usize).boxed(), 1 => (1usize..64).boxed(), 2 => (1000usize..20_000).boxed()],
     )
-        .prop_map(move |(a, to, detect, doc_size, packet_kind, p, nsel)| {
+        .prop_map(move |(a, to, detect, doc_size, packet_kind, p, nsel, lead)| {
             // stream length: tens .. hundreds of thousands, bounded by a byte budget
             let budget: usize = if big { 96 << 20 } else { 24 << 20 };
             let max_n = (budget / (doc_size + 60)).max(30).min(if big { 300_000 } else { 120_000 });
@@ -409,7 +432,8 @@ fn spec_strategy(tier: Tier) -> BoxedStrategy<StreamSpec> {
                 2 => 1 + (p as usize % (doc_size + 50)),
                 _ => 0,
             };
-            StreamSpec { a, to, detect, n, doc_size, packet_kind, packet_param }
+            let lead = if a == Fmt::Msgpack { 0 } else { lead };
+            StreamSpec { a, to, detect, n, doc_size, packet_kind, packet_param, lead }
         })
         .boxed()
 }
@@ -422,7 +446,7 @@ impl Check for C05 {
         "exploration"
     }
     fn rule(&self) -> String {
-        "The harness owns the schedule: a reader GENERATES the stream lazily (N documents from tens to hundreds of thousands, document size from ~50 bytes to tens/hundreds of KiB, JSON / MessagePack / YAML, format named or detected) and delivers it under a drawn packetisation (one document per read, several per read, a fraction of a document per read); at every read call it records D = number of documents completely delivered before the call and looks at the byte count the output writer has received. Lag oracle (the statement): at every read call the writer holds at least the complete translations of documents 1..D-2 (per-document translation size from translating one document alone). Memory oracle: a counting global allocator measures peak live heap during the call minus the level at entry; for streams whose total size is >= 10x the bound it must stay <= 2 MiB + 64 x document size; unit 'growth' also requires peak(10N) <= 1.5 x peak(N) + 64 KiB. One evaluation = one whole stream. Non-trivial = N >= 50 and (>= 2 documents per 8 KiB or a document > 16 KiB); distinct by hash of the stream parameters.".into()
+        "The harness owns the schedule: a reader GENERATES the stream lazily (N documents from tens to hundreds of thousands, document size from ~50 bytes to tens/hundreds of KiB, JSON / MessagePack / YAML, format named or detected) and delivers it under a drawn packetisation (one document per read, several per read, a fraction of a document per read; in front of the first JSON or YAML document 0, 1..63 or 1000..19999 bytes of whitespace - blank keep-alive lines - which count as part of document 1); at every read call it records D = number of documents completely delivered before the call and looks at the byte count the output writer has received. Lag oracle (the statement): at every read call the writer holds at least the complete translations of documents 1..D-2 (per-document translation size from translating one document alone). Memory oracle: a counting global allocator measures peak live heap during the call minus the level at entry; for streams whose total size is >= 10x the bound it must stay <= 2 MiB + 64 x document size; unit 'growth' also requires peak(10N) <= 1.5 x peak(N) + 64 KiB. One evaluation = one whole stream. Non-trivial = N >= 50 and (>= 2 documents per 8 KiB or a document > 16 KiB); distinct by hash of the stream parameters.".into()
     }
     fn assumptions(&self) -> Vec<String> {
         vec![
@@ -434,7 +458,7 @@ impl Check for C05 {
         vec![Unit::gen("streams", 16, tier.pick(40, 300)), Unit::enumerate("growth", 9)]
     }
     fn required_classes(&self, _tier: Tier) -> Vec<&'static str> {
-        vec!["memory_bound_checked", "detected", "explicit", "packet:one_document_per_read", "packet:several_documents_per_read", "packet:fraction_of_a_document", "pair:json->yaml", "pair:yaml->json", "pair:msgpack->msgpack", "pair:yaml->yaml", "doc:small", "doc:large", "growth_checked", "yaml_flow_first_document", "yaml_documents_with_directives", "tiny_documents", "yaml_packets_end_in_non_ascii_byte", "yaml_stream_with_utf8_bom"]
+        vec!["memory_bound_checked", "detected", "explicit", "packet:one_document_per_read", "packet:several_documents_per_read", "packet:fraction_of_a_document", "pair:json->yaml", "pair:yaml->json", "pair:msgpack->msgpack", "pair:yaml->yaml", "doc:small", "doc:large", "growth_checked", "yaml_flow_first_document", "yaml_documents_with_directives", "tiny_documents", "yaml_packets_end_in_non_ascii_byte", "yaml_stream_with_utf8_bom", "long_leading_whitespace:detected", "long_leading_whitespace:explicit"]
     }
     fn run_unit(&self, unit: &Unit, shard: u32, seed: u64, tier: Tier, rec: &mut Recorder) {
         match unit.name {
@@ -445,7 +469,7 @@ impl Check for C05 {
                 let to = [Fmt::Yaml, Fmt::Json, Fmt::Msgpack][(shard as usize / 3) % 3];
                 for detect in [false, true] {
                     for (doc_size, n) in [(40usize, tier.pick(20_000, 30_000)), (3000, tier.pick(800, 3000))] {
-                        let small = StreamSpec { a, to, detect, n, doc_size, packet_kind: 1, packet_param: 7 };
+                        let small = StreamSpec { a, to, detect, n, doc_size, packet_kind: 1, packet_param: 7, lead: 0 };
                         let large = StreamSpec { n: n * 10, ..small.clone() };
                         let cj = json!({"unit": "growth", "small": small.to_json(), "large": large.to_json()});
                         // YAML sources: plain documents and documents with directives
